@@ -34,7 +34,8 @@ RULE = ("alphabet of 23 actions (+4 in the walks: an endpoint's reliable packet 
         "followed by resend_unacked(). Exhaustive DFS with (implementation, model) state hashing to depth 4 (quick) / 6 "
         "(thorough) + random walks of 200 events (half of them timer-heavy: several injected reliable packets outstanding, 1 s clock steps) at circuit level, + random walks of 120 events with the same actions and model through the real proxy protocol (real datagrams via datagram_received and the SOCKS transport, drops performed by an addon). distinct_nontrivial = distinct hashed states with at least one injection "
         "or drop"
-        ". Round-5 addition (walks): the message the circuit has just forwarded or dropped is sent once more as circuit.send(message.take()) - the copy is a packet of the proxy's own and must not repeat the endpoint's acknowledgements")
+        ". Round-5 addition (walks): the message the circuit has just forwarded or dropped is sent once more as circuit.send(message.take()) - the copy is a packet of the proxy's own and must not repeat the endpoint's acknowledgements"
+        ". Round 9: endpoints that number their packets from 0 (a shallower exhaustive pass and most walks); pings naming the next unsent id as part of the walks' traffic")
 ASSUMPTIONS = [
     "endpoints only acknowledge reliable packets they have actually been shown, each at most once",
     "injected reliable packets get a retry budget of 3 in the exhaustive part so that exhaustion is inside the depth "
